@@ -91,7 +91,11 @@ try:
     else:
         for p in props:
             t0 = time.time()
-            rc, o = sh(f"/verif/bin/check {p} quick", cwd="/verif", timeout=3600)
+            try:
+                rc, o = sh(f"/verif/bin/check {p} quick", cwd="/verif", timeout=900)
+            except subprocess.TimeoutExpired:
+                sh("pkill -9 -f 'release/[b]sim'")
+                rc, o = 3, "HARNESS: the quick check did not finish within 15 minutes"
             lines = [l for l in o.splitlines() if l.startswith(("VIOLATION", "violation", "done:", "HARNESS", "KNOWN"))]
             det[p] = {"exit": rc, "wall_s": round(time.time() - t0, 1), "lines": [l[:400] for l in lines][:8]}
 finally:
